@@ -17,6 +17,8 @@ def run(ctx):
     import queues_corr
     import translate_prune
     translate_prune.check(ctx)       # pruning.py's literal elision translated to Gallina and linked to Cache/Prune.v by a theorem
+    import translate_nxutil
+    translate_nxutil.check(ctx)      # networkx_util.py (Kahn, all_ancestors, predecessor_count, is_source_node) compiled from the source and linked to Base/Topo.v
     prune_corr.run_prune(ctx)       # real prune_plan / prune_source_literals vs Cache/Prune.v (exact node order + keyed edges)
     queues_corr.run_queues(ctx)     # real RandomQueue / PriorityQueue / deque op sequences vs Engine/Queues.v
     gather_temporaries(ctx)
